@@ -186,6 +186,9 @@ pub fn denotes_execution(g: &GraphDesc, fps: &[u64]) -> Option<u32> {
 #[derive(Clone, Debug, Serialize, Deserialize, PartialEq, Eq, Hash)]
 pub struct OnDemandCase {
     pub g: GraphDesc,
+    /// issue all requests (and run_to_completion) back to back while the worker is kept busy
+    #[serde(default)]
+    pub burst: bool,
     /// each request picks a pending state (by index into the pending list) or, if `true`, a junk fingerprint
     pub requests: Vec<(u8, bool)>,
 }
@@ -206,7 +209,14 @@ impl SubCheck for OnDemand {
         p.exps = vec![Exp::Always, Exp::Sometimes];
         p.force_true_always = true;
         p.max_n = 16;
-        (graph_strategy(p), proptest::collection::vec((any::<u8>(), proptest::bool::weighted(0.2)), 0..7)).prop_map(|(g, requests)| OnDemandCase { g, requests }).boxed()
+        (graph_strategy(p), proptest::collection::vec((any::<u8>(), proptest::bool::weighted(0.2)), 0..7), proptest::bool::weighted(0.4))
+            .prop_map(|(mut g, requests, burst)| {
+                if burst {
+                    g.slow_us = 300;
+                }
+                OnDemandCase { g, requests, burst }
+            })
+            .boxed()
     }
     fn check(&self, c: &OnDemandCase, cov: &mut Cov) -> Result<(), Fail> {
         let g = &c.g;
@@ -265,9 +275,14 @@ impl SubCheck for OnDemand {
                     pending.push(t);
                 }
             }
+            if c.burst {
+                continue;
+            }
             ensure!(wait_for(expected_visits.len()), "c19/on-demand/requested-state-not-evaluated", "check_fingerprint of pending state {} was not followed by its evaluation within 10 s (requests so far {:?})", s, expected_visits);
         }
-        {
+        if c.burst {
+            cov.label("burst_of_requests");
+        } else {
             let seen: Vec<u32> = visits.lock().unwrap().iter().map(|v| v.path.last().unwrap().0 .0).collect();
             ensure!(seen == expected_visits, "c19/on-demand/evaluated-other-than-requested", "requested {:?} in this order, the visitor saw {:?}", expected_visits, seen);
             // (the visitor is called before the successors are generated: give the worker time to
@@ -293,6 +308,9 @@ impl SubCheck for OnDemand {
             }
         };
         let all: Vec<u32> = visits.lock().unwrap().iter().map(|v| v.path.last().unwrap().0 .0).collect();
+        if c.burst {
+            ensure!(all.len() >= expected_visits.len() && all[..expected_visits.len()] == expected_visits[..], "c19/on-demand/evaluated-other-than-requested", "burst: requested {:?} in this order before run_to_completion, the visitor saw {:?}", expected_visits, all);
+        }
         let set: BTreeSet<u32> = all.iter().copied().collect();
         ensure!(set == r.set && all.len() == set.len(), "c19/on-demand/completion-differs-from-bfs", "after run_to_completion {} states were evaluated ({} distinct), BFS evaluates {}", all.len(), set.len(), r.set.len());
         ensure!(checker.unique_state_count() == r.set.len() && checker.is_done(), "c19/on-demand/completion-counts", "unique={} reachable={} done={}", checker.unique_state_count(), r.set.len(), checker.is_done());
@@ -312,7 +330,7 @@ impl SubCheck for OnDemand {
         Ok(())
     }
     fn mandatory(&self) -> Vec<&'static str> {
-        vec!["two_targeted_requests", "request_for_unknown_fingerprint"]
+        vec!["two_targeted_requests", "request_for_unknown_fingerprint", "burst_of_requests"]
     }
 }
 
